@@ -108,6 +108,19 @@ func (x *fnCtx) loadH(h *Heap, a *Addr) *Val {
 }
 
 func (x *fnCtx) lookupName(env *specEnv, name string) (*Val, bool) {
+	v, ok := x.lookupName0(env, name)
+	if !ok && env.pkg == "" {
+		if a, has := x.alias[name]; has {
+			if v2, ok2 := x.lookupName0(env, a); ok2 {
+				x.eng.logAbs("%s: contract name %q is read as the renamed variable %q (same signature as on the baseline tree)", x.short, name, a)
+				return v2, true
+			}
+		}
+	}
+	return v, ok
+}
+
+func (x *fnCtx) lookupName0(env *specEnv, name string) (*Val, bool) {
 	if v, ok := env.bound[name]; ok {
 		return v, true
 	}
@@ -218,6 +231,48 @@ func (x *fnCtx) bindType(td *TraceDecl) types.Type {
 		}
 	}
 	scan(x.fn)
+	// calls made by uncontracted, loop-free helpers of the same repository are inlined: look there too
+	seen := map[*ssa.Function]bool{x.fn: true}
+	var deep func(fn *ssa.Function, depth int)
+	deep = func(fn *ssa.Function, depth int) {
+		if found != nil || depth > 4 {
+			return
+		}
+		for _, b := range fn.Blocks {
+			for _, in := range b.Instrs {
+				var c *ssa.CallCommon
+				switch v := in.(type) {
+				case *ssa.Call:
+					c = &v.Call
+				case *ssa.Defer:
+					c = &v.Call
+				}
+				if c == nil {
+					continue
+				}
+				callee := c.StaticCallee()
+				if callee == nil || seen[callee] || len(callee.Blocks) == 0 {
+					continue
+				}
+				pkg, key := funcKey(callee)
+				if !strings.HasPrefix(pkg, repoPrefix) {
+					continue
+				}
+				if _, has := x.eng.db.Funcs[pkg+"."+key]; has {
+					continue
+				}
+				if len(findLoopHeaders(callee)) != 0 {
+					continue
+				}
+				seen[callee] = true
+				scan(callee)
+				deep(callee, depth+1)
+			}
+		}
+	}
+	if found == nil {
+		deep(x.fn, 0)
+	}
 	return found
 }
 
